@@ -332,6 +332,40 @@ Definition body_fields (fuel : nat) (l : bytes) : option bytes :=
   r <- body_fld_param fuel l ;; r <- sp r ;; r <- nstring r ;; r <- sp r ;;
   r <- nstring r ;; r <- sp r ;; r <- string_ r ;; r <- sp r ;; number r.
 
+(* 1*body, given the recogniser of one body *)
+Fixpoint body_parts (bodyf : bytes -> option bytes) (k : nat) (l : bytes) : option bytes :=
+  match k with
+  | O => None
+  | S k' => r <- bodyf l ;;
+            match r with 40 :: _ => body_parts bodyf k' r | _ => Some r end
+  end.
+
+(* body-type-mpart = 1*body SP media-subtype [SP body-ext-mpart], then ")" ;
+   [bodyf] recognises one nested body *)
+Definition body_mpart (bodyf : bytes -> option bytes) (f : nat) (r : bytes) : option bytes :=
+  r1 <- body_parts bodyf f r ;;
+  r2 <- sp r1 ;; r3 <- string_ r2 ;;
+  match r3 with
+  | 32 :: r4 => r5 <- body_fld_param f r4 ;; r6 <- body_ext_tail f r5 ;; ch 41 r6
+  | _ => ch 41 r3
+  end.
+(* body-type-1part = (body-type-basic / body-type-msg / body-type-text)
+   [SP body-ext-1part], then ")" *)
+Definition body_1part (bodyf : bytes -> option bytes) (f : nat) (r : bytes) : option bytes :=
+  let is_msg := is_some (kw K_MSG_RFC822 r) in
+  let is_text := is_some (kw K_TEXTQ r) in
+  r1 <- string_ r ;; r1 <- sp r1 ;; r1 <- string_ r1 ;; r1 <- sp r1 ;;
+  r1 <- body_fields f r1 ;;
+  r2 <- (if is_msg then
+           x <- sp r1 ;; x <- envelope f x ;; x <- sp x ;; x <- bodyf x ;;
+           x <- sp x ;; number x
+         else if is_text then x <- sp r1 ;; number x
+         else Some r1) ;;
+  match r2 with
+  | 32 :: r3 => r4 <- nstring r3 ;; r5 <- body_ext_tail f r4 ;; ch 41 r5
+  | _ => ch 41 r2
+  end.
+
 (* body = "(" (body-type-1part / body-type-mpart) ")" *)
 Fixpoint body (fuel : nat) (l : bytes) {struct fuel} : option bytes :=
   match fuel with
@@ -340,34 +374,8 @@ Fixpoint body (fuel : nat) (l : bytes) {struct fuel} : option bytes :=
     match l with
     | 40 :: r =>
       match r with
-      | 40 :: _ =>
-        (* body-type-mpart = 1*body SP media-subtype [SP body-ext-mpart] *)
-        r1 <- (fix parts (k : nat) (l : bytes) {struct k} : option bytes :=
-                 match k with
-                 | O => None
-                 | S k' => r <- body f l ;;
-                           match r with 40 :: _ => parts k' r | _ => Some r end
-                 end) f r ;;
-        r2 <- sp r1 ;; r3 <- string_ r2 ;;
-        match r3 with
-        | 32 :: r4 => r5 <- body_fld_param f r4 ;; r6 <- body_ext_tail f r5 ;; ch 41 r6
-        | _ => ch 41 r3
-        end
-      | _ =>
-        (* body-type-1part = (basic / msg / text) [SP body-ext-1part] *)
-        let is_msg := is_some (kw K_MSG_RFC822 r) in
-        let is_text := is_some (kw K_TEXTQ r) in
-        r1 <- string_ r ;; r1 <- sp r1 ;; r1 <- string_ r1 ;; r1 <- sp r1 ;;
-        r1 <- body_fields f r1 ;;
-        r2 <- (if is_msg then
-                 x <- sp r1 ;; x <- envelope f x ;; x <- sp x ;; x <- body f x ;;
-                 x <- sp x ;; number x
-               else if is_text then x <- sp r1 ;; number x
-               else Some r1) ;;
-        match r2 with
-        | 32 :: r3 => r4 <- nstring r3 ;; r5 <- body_ext_tail f r4 ;; ch 41 r5
-        | _ => ch 41 r2
-        end
+      | 40 :: _ => body_mpart (body f) f r
+      | _ => body_1part (body f) f r
       end
     | _ => None
     end
@@ -595,37 +603,42 @@ Fixpoint sp_nz_numbers (fuel : nat) (l : bytes) : option bytes :=
            end
   end.
 
+(* message-data and the numbered mailbox-data: number SP EXISTS / RECENT,
+   nz-number SP EXPUNGE / FETCH SP msg-att; [c] is the first digit *)
+Definition untagged_numbered (fuel : nat) (c : N) (l : bytes) : option bytes :=
+  r <- number l ;; r1 <- sp r ;;
+  match kw K_EXISTS r1 with
+  | Some r2 => Some r2
+  | None =>
+    match kw K_RECENT r1 with
+    | Some r2 => Some r2
+    | None =>
+      if c =? 48 then None
+      else match kw K_EXPUNGE r1 with
+           | Some r2 => Some r2
+           | None => r2 <- kw K_FETCH r1 ;; r3 <- sp r2 ;; msg_att fuel r3
+           end
+    end
+  end.
+(* the untagged responses that begin with a word: [name] is that word, [r]
+   what follows it *)
+Definition untagged_named (fuel : nat) (name r : bytes) : option bytes :=
+  if mem_ci name CONDS_UNTAGGED then r1 <- sp r ;; resp_text fuel r1
+  else if eqb_ci name K_FLAGS then r1 <- sp r ;; flag_list fuel r1
+  else if mem_ci name K_LISTS then r1 <- sp r ;; mailbox_list fuel r1
+  else if eqb_ci name K_SEARCH then sp_nz_numbers fuel r
+  else if eqb_ci name K_STATUS then
+    r1 <- sp r ;; r2 <- mailbox r1 ;; r3 <- sp r2 ;; status_att_list fuel r3
+  else if eqb_ci name K_CAPABILITY then cap_args fuel false r
+  else if eqb_ci name K_ID then r1 <- sp r ;; id_params fuel r1
+  else None.
 (* what follows "* " up to, excluding, CRLF *)
 Definition untagged_body (fuel : nat) (l : bytes) : option bytes :=
   match l with
   | [] => None
   | c :: _ =>
-    if is_digit c then
-      r <- number l ;; r1 <- sp r ;;
-      match kw K_EXISTS r1 with
-      | Some r2 => Some r2
-      | None =>
-        match kw K_RECENT r1 with
-        | Some r2 => Some r2
-        | None =>
-          if c =? 48 then None
-          else match kw K_EXPUNGE r1 with
-               | Some r2 => Some r2
-               | None => r2 <- kw K_FETCH r1 ;; r3 <- sp r2 ;; msg_att fuel r3
-               end
-        end
-      end
-    else
-      let '(name, r) := span is_atom_char l in
-      if mem_ci name CONDS_UNTAGGED then r1 <- sp r ;; resp_text fuel r1
-      else if eqb_ci name K_FLAGS then r1 <- sp r ;; flag_list fuel r1
-      else if mem_ci name K_LISTS then r1 <- sp r ;; mailbox_list fuel r1
-      else if eqb_ci name K_SEARCH then sp_nz_numbers fuel r
-      else if eqb_ci name K_STATUS then
-        r1 <- sp r ;; r2 <- mailbox r1 ;; r3 <- sp r2 ;; status_att_list fuel r3
-      else if eqb_ci name K_CAPABILITY then cap_args fuel false r
-      else if eqb_ci name K_ID then r1 <- sp r ;; id_params fuel r1
-      else None
+    if is_digit c then untagged_numbered fuel c l
+    else let '(name, r) := span is_atom_char l in untagged_named fuel name r
   end.
 
 (* base64 = *(4base64-char) [base64-terminal]; never fails *)
@@ -645,6 +658,13 @@ Fixpoint base64 (fuel : nat) (l : bytes) : bytes :=
     end
   end.
 
+(* response-tagged = tag SP resp-cond-state CRLF *)
+Definition response_tagged (fuel : nat) (l : bytes) : option bytes :=
+  r <- tag l ;; r1 <- sp r ;;
+  let '(name, r2) := span is_atom_char r1 in
+  if mem_ci name CONDS_TAGGED then r3 <- sp r2 ;; r4 <- resp_text fuel r3 ;; crlf r4
+  else None.
+
 (* one response with its CRLF: continue-req / response-data / response-fatal /
    greeting / response-tagged *)
 Definition response (fuel : nat) (l : bytes) : option bytes :=
@@ -656,11 +676,7 @@ Definition response (fuel : nat) (l : bytes) : option bytes :=
     | None => crlf (base64 fuel r1)
     end
   | 42 :: r => r1 <- sp r ;; r2 <- untagged_body fuel r1 ;; crlf r2
-  | _ =>
-    r <- tag l ;; r1 <- sp r ;;
-    let '(name, r2) := span is_atom_char r1 in
-    if mem_ci name CONDS_TAGGED then r3 <- sp r2 ;; r4 <- resp_text fuel r3 ;; crlf r4
-    else None
+  | _ => response_tagged fuel l
   end.
 
 Fixpoint responses (fuel : nat) (k : nat) (l : bytes) : bool :=
